@@ -80,6 +80,7 @@ def default_opaque(F):
             s.add(np)
         elif np.startswith((CM, WCM, ST, LL, PC, LQ)) and "{closure" not in np:
             s.add(np)
+    s |= set(graph.WRAPPERS)
     return s
 
 
@@ -241,4 +242,90 @@ def flag_opaque(F):
         if np.startswith((CM, WCM, ST, LL, PC, LQ)) and "{closure" not in np:
             s.add(np)
     s |= {"utils::cc_alloc", "utils::cc_dealloc", "utils::alloc_other", "utils::dealloc_other"}
+    s |= set(graph.WRAPPERS)
     return s
+
+
+# ---- literal helpers ----------------------------------------------------------------------------
+
+def getter_of(e):
+    e = strip(e)
+    if isinstance(e, tuple) and e and e[0] == "call" and e[2]:
+        return e[1], obj_of(e[2][0])
+    if isinstance(e, tuple) and e and e[0] == "call":
+        return e[1], None
+    return None, None
+
+
+def has_lit(lits, getter, truth=True, obj=None):
+    """A boolean getter literal on (optionally) a given object."""
+    for a, t in lits:
+        if a[0] == "bool" and t is truth:
+            g, o = getter_of(a[1])
+            if g == getter and (obj is None or o == obj):
+                return True
+    return False
+
+
+def has_cmp_const(lits, getter, op, const, truth=True, obj=None):
+    """Literal `getter(obj) op const` (canonical form: constants on the right, Ne folded into Eq)."""
+    for a, t in lits:
+        if a[0] == "cmp" and a[1] == op and t is truth:
+            g, o = getter_of(a[2])
+            if g == getter and a[3] == ("const", const) and (obj is None or o == obj):
+                return True
+    return False
+
+
+def has_cmp_getters(lits, g1, g2, op="Eq", truth=True, obj=None):
+    """Literal `g1(obj) op g2(obj)` in either operand order (Eq only is symmetric)."""
+    for a, t in lits:
+        if a[0] == "cmp" and a[1] == op and t is truth:
+            x, ox = getter_of(a[2])
+            y, oy = getter_of(a[3])
+            if {x, y} == {g1, g2} and ox == oy and (obj is None or ox == obj):
+                return True
+    return False
+
+
+def lits_str(lits):
+    from engine import tables
+    out = []
+    for a, t in sorted(lits, key=repr):
+        s = tables.fmt_atom(a)
+        if t is True:
+            out.append(s)
+        elif t is False:
+            out.append("!" + s)
+        else:
+            out.append("%s:%s" % (s, t))
+    return "{" + ", ".join(out) + "}"
+
+
+def is_call(n, *names):
+    return n.ci is not None and not n.inlined and n.ci["k"] == "call" and n.ci["npath"] in names
+
+
+def root_of(P, f):
+    """Enclosing top-level function: closures map to their parent; methods of types/impls declared inside a
+    function body (local guard types) map to that function."""
+    if f.kind == "closure":
+        f = P.fns[f.root]
+    fid = f.id
+    cur = fid
+    while "::" in cur:
+        cur = cur.rsplit("::", 1)[0]
+        g = P.fns.get(cur)
+        if g is not None and g.kind != "closure":
+            return root_of(P, g)
+        if g is not None and g.kind == "closure":
+            return root_of(P, g)
+    return f
+
+
+def owners_of_calls(P, pred):
+    """{root function npath: [(fn, bb)]} of all call sites satisfying pred(ci)."""
+    res = {}
+    for (f, bb, ci) in P.call_sites(pred):
+        res.setdefault(root_of(P, f).npath, []).append((f, bb))
+    return res
